@@ -56,6 +56,7 @@ MANIFEST = {
             'value invocation points are fault points, as the property '
             'states.',
 }
+DYNAMIC = True        # few heavy cases: dynamic load balancing
 RULE = ('programs: forests of <= 3 / <= 4 block nodes over 15 kinds; faults: '
         'none, one (each ordinal x {raise HB, return}), two (second at every '
         'later ordinal; quick: for programs of <= 2 blocks).  A run is '
